@@ -174,7 +174,28 @@ class Sym:
         return out
 
     # -- machinery
+    _normalized = {}
+
+    def _norm(self, func):
+        """the function as the structural normaliser presents it (new helpers inlined, new temporaries removed ...)"""
+        import os
+        if os.environ.get("TYVERIF_NO_NORMALIZE") or getattr(func, "raw", None) is not None:
+            return func
+        key = (id(func.module), func.qualname, id(func.node))
+        if key not in Sym._normalized:
+            from .normalize import normalized_func
+            from .core import Func
+            try:
+                node, _ = normalized_func(func)
+                nf = Func(func.module, node, func.cls)
+                nf.raw = func
+            except Exception:
+                nf = func
+            Sym._normalized[key] = nf
+        return Sym._normalized[key]
+
     def _call(self, func, args, kw, depth):
+        func = self._norm(func)
         if depth > self.max_depth:
             raise Unsupported("call depth exceeded at %s" % func.qualname)
         params = func.params
@@ -205,6 +226,8 @@ class Sym:
                 continue
             if isinstance(st, (ast.Pass, ast.Import, ast.ImportFrom, ast.Assert)):
                 continue
+            if isinstance(st, (ast.FunctionDef, ast.AsyncFunctionDef)):
+                continue        # a nested helper: its calls were inlined by the normaliser, or evaluating one raises Unsupported
             if isinstance(st, ast.Expr) and isinstance(st.value, ast.Call):
                 continue      # a call for its effect (validation helpers): no value
             if isinstance(st, ast.Assign):
